@@ -912,7 +912,7 @@ func stressTest(t *testing.T, prop string) {
 			Cfg: Cfg{SkipListMaxLevel: 9, SkipListP: 0.5, MemThreshold: rapid.SampledFrom([]int{60, 200, 200, 600}).Draw(rt, "mem"),
 				ImmBuf: rapid.SampledFrom([]int{0, 2, 10}).Draw(rt, "immBuf"), Block: 4096, L0Target: rapid.SampledFrom([]int{1, 2, 5}).Draw(rt, "l0"), Ratio: 2},
 			Writers:  rapid.SampledFrom([]int{16, 32, 32}).Draw(rt, "writers"),
-			Readers:  rapid.SampledFrom([]int{32, 64, 64}).Draw(rt, "readers"),
+			Readers:  rapid.SampledFrom([]int{32, 64, 64, 128}).Draw(rt, "readers"),
 			Counters: rapid.IntRange(1, 2).Draw(rt, "counters"),
 			Incs:     rapid.SampledFrom([]int{80, 120, 160}).Draw(rt, "incs"),
 			Procs:    rapid.SampledFrom([]int{2, 4, 4}).Draw(rt, "procs"),
